@@ -58,6 +58,10 @@ CLAIMED = {
  'C18': dict(engine = 'symx', technique = 'symbolic execution of the real wrapper classes, getcallargs/call_with_callargs and cache over exec-generated signatures, with solver-chosen call splits and symbolic argument values (z3); counterexample replay',
              text = 'For every signature with 0..3 positional parameters (thorough 4), any trailing defaults, with/without *args and **kwargs, and every valid call (positional/keyword split, supplied defaults, extra positionals and keywords chosen by the solver, values symbolic): each decorator and every stack of two (thorough three) returns what f returns, reports f\'s argspec and does not double wrap; getcallargs agrees with inspect.getcallargs and call_with_callargs round-trips; try_* fall back exactly when f raises; kwargs_support drops exactly the undeclared keywords; a cached function is evaluated once per distinct argument combination over histories of <= 3 calls.',
              note = 'Trusted: z3, CPython, proxies, inspect.getcallargs as oracle. f returns the tuple of its whole binding; cache histories use arguments from {0,1} (equalities are the solver\'s choice); keyword-only parameters, timer/do_if/kwpartial are not explored.'),
+
+ 'C19': dict(engine = 'symx', technique = 'symbolic execution of real loops/_item_by_key/_item_by_i, zipper/lens, as_list/as_tuple and waiter (on a real asyncio loop) with z3: structure shapes and completion orders are symbolic selectors, leaves symbolic; counterexample replay',
+             text = 'For every nesting of lists/tuples/dicts up to depth 2 (thorough 3) and every companion kind (scalar, same shape, other shapes incl. partially overlapping dict keys), positional or keyword: the lifted function returns the same shape and container types with each leaf bound to its matched companion; library functions are lifted leaf-wise; zipper/lens zip, broadcast and raise exactly per the rule for <= 3 operands of length <= 3; as_list is idempotent; waiter replaces every awaitable by its result under every completion order of <= 3 (thorough 4) awaitables.',
+             note = 'Trusted: z3, CPython, asyncio, proxies. Known finding: as_tuple idempotence fails on results that are a one-element tuple holding a list (region excluded from the proof obligation and re-confirmed each run). Statement says depth 4 and 6 awaitables; depth <= 3 and <= 4 awaitables are explored.'),
 }
 NA = {}
 TODO = 'check not built yet in this session (work in progress); will be decided by symbolic execution of the real code as described in DESIGN.md'
